@@ -149,6 +149,15 @@ CHECKS = {
               'alternating, random, large-DC-offset, ramp and sparse-extreme samples, tight / padded strides, unaligned starts, bit depths 8 and 10, widths 4..128.'),
         note=('Partial: only the variance sum path is proved (LaneSum.v transcribes which lanes meet before widening; the transcribed helpers are pinned by a digest of their text); transforms, convolutions, loop filters, CDEF, restoration, quantisers '
               'and the high-bit-depth kernels behind CONVERT_TO_SHORTPTR (253 + 18 pointers) are not called by the runner - they are reached only through the whole-encoder runs of C06. AVX-512 variants are not built here.')),
+    'C20': dict(
+        category='other', design_ref='DESIGN.md §6 C20',
+        technique='Coq-verified monitor (decision procedure proved equivalent to the rule specification; tile-layout function with its own theorem) applied to independently parsed frame headers and per-block mode information of real encodes',
+        text=('c20_monitor_sound: the extracted check accepts a history exactly when, for every coded frame, each tool whose switch is off shows no use (loop-filter levels, CDEF bits/strengths, restoration types, palette / intra-block-copy / OBMC / warped / '
+              'filter-intra / CfL / inter-intra block counts, non-translational global motion, superres scaling) and the signalled tile_cols/rows (log2 and count) equal the requested layout limited by the number of superblocks; c20_requested_tiles_used: '
+              'that limit is the identity whenever the frame has that many evenly dividing superblocks. Applied to every coded frame of encodes of contents that provoke each tool (counts of frames using each tool when enabled are reported for non-vacuity), '
+              'with every switch off, single switches off, filters off x multi-tile layouts, tile_columns/rows 0..6 x sizes with fewer superblocks than requested tiles.'),
+        note=('Partial: the monitor is verified, the claim about the encoder is observed on the scenarios run. Headers and block modes are read from the library\'s own decoder parse through EbDecHandle internals (no independent AV1 parser is available offline), '
+              'so a syntax error shared by encoder and decoder would not be seen; superres on/off is checked through the frame-size fields only.')),
 }
 
 NOT_BUILT_REASON = 'check not built yet in this development (work in progress); no claim is made'
